@@ -1024,7 +1024,33 @@ func runReplay(args []string) int {
 	_ = os.MkdirAll(workdir, 0o755)
 	defer os.RemoveAll(workdir)
 	job := shardJob{race: w.Race, shard: 0, nshards: 1}
-	oc := runShard(w.Property, w.Tier, w.Seed, job, workdir, "-replay-section", w.Section, "-replay-index", strconv.FormatUint(w.Index, 10))
+	// a case whose outcome depends on how goroutines happen to interleave is re-run up to 40 times:
+	// one silent run of such a case says little
+	attempts := 1
+	if strings.HasPrefix(w.Section, "cold-start") || strings.HasPrefix(w.Section, "concurrent") {
+		attempts = 40
+	}
+	var oc shardOutcome
+	for a := 1; a <= attempts; a++ {
+		oc = runShard(w.Property, w.Tier, w.Seed, job, workdir, "-replay-section", w.Section, "-replay-index", strconv.FormatUint(w.Index, 10))
+		if oc.res == nil || oc.res.ViolationCount > 0 || len(oc.res.HarnessErrors) > 0 {
+			break
+		}
+		if job.race {
+			// a race report of the children is a reproduction too
+			if files, _ := filepath.Glob(outPathOf(oc) + ".race*"); len(files) > 0 {
+				for _, f := range files {
+					if b, err := os.ReadFile(f); err == nil && strings.Contains(string(b), "WARNING: DATA RACE") {
+						fmt.Printf("VIOLATION property=%s replay=%s\n  aspect=race (reproduced in attempt %d)\n%s\n", w.Property, args[0], a, tail(string(b), 3000))
+						return 1
+					}
+				}
+			}
+		}
+	}
+	if attempts > 1 {
+		fmt.Printf("(schedule-dependent case: up to %d attempts)\n", attempts)
+	}
 	if oc.res == nil {
 		switch oc.exitCode {
 		case core.ExitHang:
